@@ -42,6 +42,7 @@ EXPLANATION = (
     "the level file that write_to_disk re-reads, chunk sizes of zipped "
     "streams agree, renaming pairs lists of equal shape. (f) per-collection "
     "state is created inside the collection loop and file names carry the "
+    "Also: the rollup reads only files it did not write itself (shared with C09). "
     "collection prefix. NOT decided: the winner for concrete data.")
 TECHNIQUE = ("CFG must-pass-through + def-use term matching + "
              "inter-procedural flag tracing + sibling agreement")
